@@ -341,10 +341,9 @@ theorem wildItemOK_any {e : BEnv} {Γ : Ctx} {m : XmlMeta} {wv : XmlVar} {y : Va
       exact ⟨q, t, a, kids, rfl, h1, h2, h3, h4, fun kv hkv => h5 kv hkv, h6⟩
   | _ => simp [wildItemOK] at h
 
-/-- what the proof needs to know about the list wildcard of a class -/
+/-- what the proof needs to know about the wildcard (list or single) of a class -/
 structure WildFactsN (m : XmlMeta) (var : XmlVar) : Prop where
   isWild : var.kind = .wildcard
-  list : var.listElement = true
   init : var.init = true
   mixed : var.mixed = false
   tokens : var.tokens = false
@@ -354,7 +353,7 @@ structure WildFactsN (m : XmlMeta) (var : XmlVar) : Prop where
   sequence : var.sequence = none
   noChoices : var.elements = []
   clazz : var.clazz = none
-  default : var.default = .listFactory
+  default : var.default = if var.listElement then .listFactory else .none
   index : 1 ≤ var.index
   qne : var.qname ≠ []
   findSelf : m.findChildren var.qname = [var]
@@ -386,7 +385,9 @@ theorem childNode_wild (e : BEnv) (Γ : Ctx) (pcfg : ParserConfig) {m : XmlMeta}
     (hft : (if wv.processContents ≠ "skip".toList then Γ.findType q else none) = none) :
     childNode e Γ pcfg m st q a M wv.wrapperQName = .ok (.wildcard wv a M, stStep st wv.wrapperQName wv) := by
   have hb := buildNode_wild e Γ hw q a M hx hft
-  simp [childNode, childNode.go, hfc, hw.wrapper, hw.list, hb, stStep, pushWs]
+  have hm : multi wv = true := by simp [multi, VarCore.isElement, hw.isWild]
+  have hne : wv.isElement = false := by simp [VarCore.isElement, hw.isWild]
+  simp [childNode, childNode.go, hfc, hw.wrapper, hne, hb, stStep, hm, pushWs]
 
 /-- the parser side of one generic item of the wildcard -/
 theorem itemK_wild (e : BEnv) (Γ : Ctx) (pcfg : ParserConfig) (M : NsMap) {m : XmlMeta} {wv : XmlVar}
@@ -410,10 +411,12 @@ theorem prepareGeneric_any (oq : Option QN) (q : Option QN) (t tl : Option Str) 
   | none => rfl
   | some x => cases x <;> rfl
 
-/-- `bind_wild_var` of a list wildcard appends, like `bind_var` of a list -/
+/-- `bind_wild_var` appends to a list wildcard and sets a single one that is not bound yet, like
+`bind_var` -/
 theorem bindObject_W {m : XmlMeta} {wv : XmlVar} (hw : WildFactsN m wv) (ws : Ws) (P : Params)
     (q : Option QN) (t tl : Option Str) (a : List (QN × Str)) (kids : List Val)
-    (hpop : (popWrapper ws (some wv.qname)).1 = wv.wrapperQName) :
+    (hpop : (popWrapper ws (some wv.qname)).1 = wv.wrapperQName)
+    (hfresh : wv.listElement = true ∨ P.has wv.name = false) :
     bindObject m ws P (some wv.qname) (.any q t tl a kids) =
       .ok (true, (bindVar P wv (.any q t tl a kids)).2, (popWrapper ws (some wv.qname)).2) := by
   cases hpw : popWrapper ws (some wv.qname) with
@@ -421,14 +424,24 @@ theorem bindObject_W {m : XmlMeta} {wv : XmlVar} (hw : WildFactsN m wv) (ws : Ws
     rw [hpw] at hpop
     simp only at hpop
     subst hpop
-    cases hg : P.get wv.name with
-    | none =>
-      simp [bindObject, hpw, bindObject.go, hw.findSelf, VarCore.isWildcard, hw.isWild, hw.wrapper,
-        bindWildVar, prepareGeneric_any, hw.list, hw.init, bindVar, hg, bind, Except.bind, pure, Except.pure]
-    | some pv =>
-      cases pv <;>
+    cases hl : wv.listElement with
+    | true =>
+      cases hg : P.get wv.name with
+      | none =>
         simp [bindObject, hpw, bindObject.go, hw.findSelf, VarCore.isWildcard, hw.isWild, hw.wrapper,
-          bindWildVar, prepareGeneric_any, hw.list, hw.init, bindVar, hg, bind, Except.bind, pure,
-          Except.pure]
+          bindWildVar, prepareGeneric_any, hl, hw.init, bindVar, hg, bind, Except.bind, pure, Except.pure]
+      | some pv =>
+        cases pv <;>
+          simp [bindObject, hpw, bindObject.go, hw.findSelf, VarCore.isWildcard, hw.isWild, hw.wrapper,
+            bindWildVar, prepareGeneric_any, hl, hw.init, bindVar, hg, bind, Except.bind, pure,
+            Except.pure]
+    | false =>
+      have hh : P.has wv.name = false := by
+        rcases hfresh with h | h
+        · rw [hl] at h; cases h
+        · exact h
+      have hg : P.get wv.name = none := Params.get_eq_none hh
+      simp [bindObject, hpw, bindObject.go, hw.findSelf, VarCore.isWildcard, hw.isWild, hw.wrapper,
+        bindWildVar, prepareGeneric_any, hl, hw.init, bindVar, hg, hh, bind, Except.bind, pure, Except.pure]
 
 end Proofs.C01
